@@ -335,7 +335,27 @@ def _eval_const(expr: str, env: dict):
         return ops[opcls](a, b)
 
     tree = ast.parse(expr, mode="eval")
-    return ev(tree.body)
+    result = ev(tree.body)
+    _ensure_representable(result)
+    return result
+
+
+def _ensure_representable(value: object) -> None:
+    """Reject folded constants that no numeric type of the target can hold.
+
+    ``inf``/``nan`` and integers beyond 64 bits would otherwise surface later as
+    ``OverflowError`` from ``int(value)``/``float(value)`` instead of ``ValueError``.
+    """
+
+    if isinstance(value, bool):
+        return
+    if isinstance(value, float) and (value != value or value in (float("inf"), float("-inf"))):
+        raise ValueError("constant is not a finite number")
+    if isinstance(value, int) and value.bit_length() > 64:
+        raise ValueError("constant too large")
+    if isinstance(value, (list, tuple)):
+        for item in value:
+            _ensure_representable(item)
 
 
 def _to_c_expr(
@@ -3534,6 +3554,7 @@ def _parse_simple_lines(
                 def _coerce_pattern(value: object) -> None:
                     if not isinstance(value, (list, tuple)):
                         raise ValueError("flash_pattern requires a literal pattern list")
+                    _ensure_representable(value)
                     for entry in value:
                         if isinstance(entry, bool):
                             pattern_values.append(1 if entry else 0)
